@@ -2,7 +2,7 @@
    `tryeval` / `eval` are the models of Expr.TryEval / Expr.Eval run on the compiled flat program (compared with the
    Go functions on Go's own programs on every run); `trysem` / `sem` are their tree-level meanings.
    Proofs in Proofs/TryCorrect.v (machine level), EvalTop.v, TrySound.v. *)
-Require Import Base Opcode Tables Ops Tree Opt Flat Run TryFacts TrySound EvalDefs EvalTop TryCorrect.
+Require Import Base Opcode Tables Ops Tree Opt Flat Run TryFacts TrySound EvalDefs EvalTop TryCorrect OptSound OptValue OptTotal.
 Open Scope Z_scope.
 
 (* the TryEval loop on the compiled program computes exactly `trysem`: value or the very error, the fetches of
@@ -34,6 +34,34 @@ Theorem C04_sound : forall custom fetch cached fetch',
   forall t v v', snd (trysem fetch custom cached t) = Ok v -> snd (sem fetch' custom t) = Ok v' ->
   v = VDNE \/ v = v'.
 Proof. exact try_sound. Qed.
+
+(* ... and of the SOURCE expression, when the program was compiled with any optimisation configuration: a definite
+   answer of TryEval on the optimised expression is the value the expression as written has under every completion
+   under which it and its optimised form return values (C02's theorem: they then agree); when strict evaluation of
+   the source succeeds under the completion (`rok`), that is automatic *)
+Theorem C04_sound_source : forall custom fetch cached fetch' cfg,
+  (forall n k, cached n k = true -> fetch' n k = fetch n k) ->
+  forall t v a b, wt fetch' custom t ->
+    snd (trysem fetch custom cached (optimize custom cfg t)) = Ok v ->
+    snd (sem fetch' custom t) = Ok a -> snd (sem fetch' custom (optimize custom cfg t)) = Ok b ->
+    v = VDNE \/ v = a.
+Proof.
+  intros custom fetch cached fetch' cfg Hc t v a b W Hv Ha Hb.
+  assert (E : a = b).
+  { pose proof (sem_refines_den fetch' custom t W a Ha) as DA.
+    pose proof (sem_refines_den fetch' custom _ (wt_optimize fetch' custom cfg t W) b Hb) as DB.
+    rewrite den_optimize in DB. congruence. }
+  subst b. exact (try_sound custom fetch cached fetch' Hc _ v a Hv Hb).
+Qed.
+Theorem C04_sound_source_strict : forall custom fetch cached fetch' cfg,
+  (forall n k, cached n k = true -> fetch' n k = fetch n k) ->
+  forall t v a, rok fetch' custom t = Some a ->
+    snd (trysem fetch custom cached (optimize custom cfg t)) = Ok v -> v = VDNE \/ v = a.
+Proof.
+  intros custom fetch cached fetch' cfg Hc t v a R Hv.
+  pose proof (all_configurations_return fetch' custom cfg t a R) as Hb. unfold OptValue.val in Hb.
+  exact (try_sound custom fetch cached fetch' Hc _ v a Hv Hb).
+Qed.
 
 (* making more variables available never changes a definite answer *)
 Theorem C04_monotone : forall custom fetch cached1 cached2,
